@@ -218,6 +218,13 @@ func c17Run(e *aEnv, h *c17Hook, c c17Case) c17Out {
 		// the relay closes the source side asynchronously
 		conn.WaitClosed(5 * time.Second)
 	}
+	// the periodic statistics reporters write through the same loggers
+	func() {
+		defer func() { _ = recover() }() // housekeeping panics are C19's business
+		e.cm.PrintAndReset(e.rm.Logger)
+		cj.GetProxyStats().PrintAndReset(e.rm.Logger)
+		e.rm.PrintAndReset(e.rm.Logger)
+	}()
 	logs, drained := h.Collect(fmt.Sprintf("@@verif-c17-marker-%p@@", conn))
 	if pan != nil {
 		out.key, out.msg = "panic", fmt.Sprintf("handler panicked: %v", pan)
